@@ -14,6 +14,7 @@ import DTML.TreeCodec
 import DTML.TreeState
 import DTML.Scan
 import DTML.Parse
+import DTML.Render
 open Lean DTML
 
 namespace Driver
@@ -311,6 +312,182 @@ def opCompile (j : Json) : Except String Json := do
     return Json.mkObj [("status", Json.str "error"), ("msg", Json.str le.err.msg), ("tok", Json.num le.tok),
       ("tag", jText tag), ("line", Json.num (Parse.lineOf src.toList start))]
 
+namespace RJ
+open DTML.Render
+
+def txt (j : Json) : Except String (List Char) := do return (← j.getStr?).toList
+
+partial def val (j : Json) : Except String Val := do
+  match j with
+  | .null => return .none
+  | .bool b => return .bool b
+  | .num _ => return .int (← j.getInt?)
+  | .obj _ =>
+    if let .ok s := j.getObjVal? "s" then return .str (← txt s)
+    if let .ok b := j.getObjValAs? (Array Nat) "b" then return .bytes b.toList
+    if let .ok l := j.getObjValAs? (Array Json) "l" then return .list (← l.toList.mapM val)
+    if let .ok l := j.getObjValAs? (Array Json) "t" then return .tuple (← l.toList.mapM val)
+    if let .ok l := j.getObjValAs? (Array Json) "d" then return .dict (← kvs l)
+    if let .ok id := j.getObjValAs? Nat "o" then
+      return .obj id (← kvs (← j.getObjValAs? (Array Json) "a"))
+    if let .ok id := j.getObjValAs? Nat "f" then return .fn id (← val (← j.getObjVal? "r"))
+    if let .ok id := j.getObjValAs? Nat "T" then return .tmpl id
+    if let .ok c := j.getObjVal? "x" then return .exc (← txt c) (← txt (← j.getObjVal? "m"))
+    throw "bad value object"
+  | _ => throw "bad value"
+where
+  kvs (l : Array Json) : Except String (List (List Char × Val)) :=
+    l.toList.mapM fun p => do
+      let a ← p.getArr?
+      return ((← txt a[0]!), (← val a[1]!))
+
+partial def expr (j : Json) : Except String Expr := do
+  let a ← j.getArr?
+  let k ← a[0]!.getStr?
+  match k with
+  | "name" => return .name (← txt a[1]!)
+  | "under" => return .under (← txt a[1]!)
+  | "lit" => return .lit (← val a[1]!)
+  | "attr" => return .attr (← expr a[1]!) (← txt a[2]!)
+  | "item" => return .item (← expr a[1]!) (← val a[2]!)
+  | "call" => return .call (← expr a[1]!)
+  | "not" => return .not (← expr a[1]!)
+  | "eq" => return .eq (← expr a[1]!) (← expr a[2]!)
+  | _ => throw s!"expr {k}"
+
+def src (j : Json) : Except String Src := do
+  let a ← j.getArr?
+  if (← a[0]!.getStr?) = "n" then return .name (← txt a[1]!) else return .expr (← expr a[1]!)
+
+def optTxt (j : Json) : Except String (Option (List Char)) :=
+  match j with
+  | .null => pure none
+  | j => do return some (← txt j)
+
+partial def blk (j : Json) : Except String Blk := do
+  let a ← j.getArr?
+  let k ← a[0]!.getStr?
+  match k with
+  | "lit" => return .lit (← txt a[1]!)
+  | "comment" => return .comment
+  | "var" => return .var (← src a[1]!) (← a[2]!.getBool?) (← optTxt a[3]!) (← optTxt a[4]!)
+  | "cond" =>
+    let cs ← (← a[1]!.getArr?).toList.mapM fun c => do
+      let ca ← c.getArr?
+      return ((← src ca[0]!), (← blks ca[1]!))
+    return .cond cs (← optBlks a[2]!)
+  | "unless" => return .unless (← src a[1]!) (← blks a[2]!)
+  | "call" => return .call (← src a[1]!)
+  | "in" =>
+    let o := a[2]!
+    let opts : InOpts := { mapping := (o.getObjValAs? Bool "mapping").toOption.getD false,
+                           noPush := (o.getObjValAs? Bool "noPush").toOption.getD false,
+                           prefix_ := (o.getObjValAs? String "prefix").toOption.map String.toList }
+    return .in_ (← src a[1]!) opts (← blks a[3]!) (← optBlks a[4]!)
+  | "with" => return .with_ (← src a[1]!) (← a[2]!.getBool?) (← a[3]!.getBool?) (← blks a[4]!)
+  | "let" =>
+    let bs ← (← a[1]!.getArr?).toList.mapM fun b => do
+      let ba ← b.getArr?
+      return ((← txt ba[0]!), (← src ba[1]!))
+    return .let_ bs (← blks a[2]!)
+  | "try" =>
+    let hs ← (← a[2]!.getArr?).toList.mapM fun h => do
+      let ha ← h.getArr?
+      return ((← txt ha[0]!), (← blks ha[1]!))
+    return .try_ (← blks a[1]!) hs (← optBlks a[3]!)
+  | "tryfin" => return .tryFin (← blks a[1]!) (← blks a[2]!)
+  | "raise" =>
+    let e ← match a[2]! with
+      | .null => pure none
+      | x => do pure (some (← expr x))
+    return .raise_ (← txt a[1]!) e (← blks a[3]!)
+  | "ret" => return .ret (← src a[1]!)
+  | _ => throw s!"blk {k}"
+where
+  blks (j : Json) : Except String (List Blk) := do (← j.getArr?).toList.mapM blk
+  optBlks (j : Json) : Except String (Option (List Blk)) :=
+    match j with
+    | .null => pure none
+    | j => do return some (← (← j.getArr?).toList.mapM blk)
+
+def kvs (j : Json) : Except String (List (List Char × Val)) := do
+  (← j.getArr?).toList.mapM fun p => do
+    let a ← p.getArr?
+    return ((← txt a[0]!), (← val a[1]!))
+
+def template (j : Json) : Except String Template := do
+  return { blocks := ← (← (← j.getObjVal? "blocks").getArr?).toList.mapM blk,
+           globals := ← kvs (← j.getObjVal? "globals"), vars := ← kvs (← j.getObjVal? "vars") }
+
+def jPiece : Piece → Json
+  | .text s => Json.mkObj [("s", jText s)]
+  | .bytes b => Json.mkObj [("b", Json.arr (b.map (fun (n : Nat) => Json.num n)).toArray)]
+
+partial def jVal : Val → Json
+  | .none => Json.null
+  | .bool b => Json.bool b
+  | .int i => jInt i
+  | .str s => Json.mkObj [("s", jText s)]
+  | .bytes b => Json.mkObj [("b", Json.arr (b.map (fun (n : Nat) => Json.num n)).toArray)]
+  | .list xs => Json.mkObj [("l", Json.arr (xs.map jVal).toArray)]
+  | .tuple xs => Json.mkObj [("t", Json.arr (xs.map jVal).toArray)]
+  | .dict kv => Json.mkObj [("d", Json.arr (kv.map fun (k, v) => Json.arr #[jText k, jVal v]).toArray)]
+  | .obj id _ => Json.mkObj [("o", Json.num id)]
+  | .fn id _ => Json.mkObj [("f", Json.num id)]
+  | .tmpl id => Json.mkObj [("T", Json.num id)]
+  | .exc c m => Json.mkObj [("x", jText c), ("m", jText m)]
+
+def jEvent : Event → Json
+  | .call id => Json.arr #[Json.str "call", Json.num id]
+  | .guard o n => Json.arr #[Json.str "guard", Json.num o, jText n]
+  | .gitem o i => Json.arr #[Json.str "gitem", Json.num o, jInt i]
+  | .snap fs lv => Json.arr #[Json.str "snap", Json.arr (fs.map fun (k, keys, id) =>
+      Json.arr #[jText k, Json.arr (keys.map jText).toArray, Json.num id]).toArray, Json.num lv]
+
+def jFrame : Frame → Json
+  | .dict kv => Json.arr #[Json.str "dict", Json.arr (kv.map fun (k, _) => jText k).toArray]
+  | .inst v _ => Json.arr #[Json.str "inst", jVal v]
+  | .seq _ => Json.arr #[Json.str "seq"]
+  | .bad => Json.arr #[Json.str "bad"]
+
+/-- op "render": a top-level template call on the interpreter model -/
+def opRender (j : Json) : Except String Json := do
+  let tmpls ← (← (← j.getObjVal? "templates").getArr?).toList.mapM template
+  let classes ← (← (← j.getObjVal? "classes").getArr?).toList.mapM fun c => do
+    let a ← c.getArr?
+    let bases ← (← a[1]!.getArr?).toList.mapM txt
+    return ((← txt a[0]!), bases)
+  let denied ← (← (← j.getObjVal? "denied").getArr?).toList.mapM fun d => do
+    let a ← d.getArr?
+    return ((← a[0]!.getNat?), (← txt a[1]!))
+  let guardOn := (j.getObjValAs? Bool "guard").toOption.getD false
+  let faultAt := (j.getObjValAs? Nat "faultAt").toOption
+  let faultCls := ((j.getObjValAs? String "faultCls").toOption.getD "ValueError").toList
+  let utf8 := (j.getObjValAs? Bool "utf8").toOption.getD true
+  let env : Render.Env :=
+    { templates := tmpls, classes := classes, guardOn := guardOn, denied := denied, faultAt := faultAt,
+      faultExc := ⟨faultCls, "fault".toList⟩, utf8 := utf8 }
+  let main ← getNat j "main"
+  let clients ← (← (← j.getObjVal? "clients").getArr?).toList.mapM val
+  let args : CallArgs := { clients := clients, mapping := ← kvs (← j.getObjVal? "mapping"),
+                           kw := ← kvs (← j.getObjVal? "kw") }
+  let fuel := (j.getObjValAs? Nat "fuel").toOption.getD 100000
+  match tmpls[main]? with
+  | none => throw "main"
+  | some t =>
+    let (r, st) := topCall env fuel t args
+    let res := match r with
+      | .ok v => Json.mkObj [("ok", jVal v)]
+      | .raise e => Json.mkObj [("raise", jText e.cls), ("msg", jText e.msg)]
+      | .ret v => Json.mkObj [("ok", jVal v)]
+      | .oom => Json.mkObj [("oom", Json.bool true)]
+    return Json.mkObj [("result", res), ("trace", Json.arr (st.trace.map jEvent).toArray),
+      ("stack", Json.arr (st.stack.map jFrame).toArray), ("level", Json.num st.level),
+      ("calls", Json.num st.calls),
+      ("stack0", Json.arr ((callStack t args).map jFrame).toArray)]
+
+end RJ
+
 def handle (j : Json) : Except String Json := do
   let op ← getStr j "op"
   match op with
@@ -326,6 +503,7 @@ def handle (j : Json) : Except String Json := do
   | "tree" => opTree j
   | "tokens" => opTokens j
   | "compile" => opCompile j
+  | "render" => RJ.opRender j
   | "ping" => return Json.str "pong"
   | _ => throw s!"unknown op {op}"
 
